@@ -1139,7 +1139,8 @@ PROP_THEOREMS = {
     "C02": ["C02_counts_within_buffers", "C02_level0_lossless_under_every_schedule_partial",
             "C02_level0_any_schedule_then_any_split_partial", "C02_level0_every_schedule_never_panics_partial",
             "C02_level0_every_schedule_returns_partial"],
-    "C10": ["C10_length_tables_inverse", "C10_distance_tables_inverse", "C10_level0_output_is_a_valid_stream_partial"],
+    "C10": ["C10_length_tables_inverse", "C10_distance_tables_inverse", "C10_level0_output_is_a_valid_stream_partial",
+            "C10_level0_emits_only_stored_blocks_partial"],
     "C11": ["C11_window_limit_routing", "C11_declared_window"],
     "C12": ["C12_sync_marker_is_empty_stored_block", "C12_level0_flush_point_decodable_partial",
             "C12_level0_room_means_nothing_pending_partial", "C12_level0_flush_with_room_is_a_flush_point_partial"],
